@@ -504,3 +504,123 @@ theorem subWith_err {f : Bitmap → Bitmap → Bitmap} {xs : List (Except ε Bit
     exact assignLoop_err f lhs iter e hfe
 
 end Roaring.Multi
+
+namespace Roaring.Multi
+open Roaring Roaring.Spec Roaring.Multi.SpecL
+
+variable {ε : Type}
+
+/-! ### error propagation of ∪ (kernel-free: only the control skeleton is involved) -/
+
+theorem orStartWith_err {sort : List Bitmap → List Bitmap} (hs : ∀ l, (sort l).Perm l) {h : Hint}
+    {xs : List (Except ε Bitmap)} {e : ε} (hh : Hint.Admissible h xs.length) (hfe : firstError xs = some e) :
+    orStartWith sort h xs = .error e ∨
+      ∃ c rest, orStartWith sort h xs = .ok (some (c, rest)) ∧ firstError rest = some e := by
+  have hfe' := firstError_take_drop (toCollect h xs.length) xs
+  unfold orStartWith
+  rw [collectStart_eq]
+  have hne : xs ≠ [] := by rintro rfl; simp [firstError] at hfe
+  have htk := take_ne_nil_of_admissible hh hne
+  generalize toCollect h xs.length = t at *
+  rw [hfe] at hfe'
+  cases hfe1 : firstError (xs.take t) with
+  | some e' =>
+    rw [hfe1] at hfe'
+    simp only [Option.some_or, Option.some.injEq] at hfe'
+    subst hfe'
+    left; rfl
+  | none =>
+    rw [hfe1] at hfe'
+    simp only [Option.none_or] at hfe'
+    simp only
+    have hperm := hs (okValues (xs.take t))
+    cases hsort : sort (okValues (xs.take t)) with
+    | nil =>
+      rw [hsort] at hperm
+      have h0 : okValues (xs.take t) = [] := nil_of_perm_nil hperm
+      have hl := okValues_length_of_none _ hfe1
+      rw [h0] at hl
+      exact absurd (List.length_eq_zero_iff.1 hl.symm) htk
+    | cons c st =>
+      right
+      refine ⟨c, _, rfl, ?_⟩
+      rw [firstError_append, firstError_map_ok, ← hfe']; rfl
+
+theorem tryMultiOrOwnedWith_err {sort : List Bitmap → List Bitmap} (hs : ∀ l, (sort l).Perm l) {h : Hint}
+    {xs : List (Except ε Bitmap)} {e : ε} (hh : Hint.Admissible h xs.length) (hfe : firstError xs = some e) :
+    tryMultiOrOwnedWith sort h xs = .error e := by
+  unfold tryMultiOrOwnedWith
+  rcases orStartWith_err hs hh hfe with h1 | ⟨c, rest, h1, h2⟩
+  · rw [h1]
+  · rw [h1]; simp only; rw [mergeLoopOwned_eq, h2]
+
+theorem tryMultiOrRefWith_err {sort : List Bitmap → List Bitmap} (hs : ∀ l, (sort l).Perm l) {h : Hint}
+    {xs : List (Except ε Bitmap)} {e : ε} (hh : Hint.Admissible h xs.length) (hfe : firstError xs = some e) :
+    tryMultiOrRefWith sort h xs = .error e := by
+  unfold tryMultiOrRefWith
+  rcases orStartWith_err hs hh hfe with h1 | ⟨c, rest, h1, h2⟩
+  · rw [h1]
+  · rw [h1]; simp only; rw [mergeLoopRef_eq, h2]
+
+theorem tryMultiXorOwned_err {xs : List (Except ε Bitmap)} {e : ε} (hfe : firstError xs = some e) :
+    tryMultiXorOwned xs = .error e := by
+  unfold tryMultiXorOwned
+  match xs, hfe with
+  | [], hfe => simp [firstError] at hfe
+  | .error e' :: _, hfe => simp only [firstError, Option.some.injEq] at hfe; subst hfe; rfl
+  | .ok v :: iter, hfe =>
+    simp only [firstError] at hfe
+    simp only; rw [mergeLoopOwned_eq, hfe]
+
+theorem tryMultiXorRef_err {xs : List (Except ε Bitmap)} {e : ε} (hfe : firstError xs = some e) :
+    tryMultiXorRef xs = .error e := by
+  unfold tryMultiXorRef
+  match xs, hfe with
+  | [], hfe => simp [firstError] at hfe
+  | .error e' :: _, hfe => simp only [firstError, Option.some.injEq] at hfe; subst hfe; rfl
+  | .ok v :: iter, hfe =>
+    simp only [firstError] at hfe
+    simp only; rw [mergeLoopRef_eq, hfe]
+
+/-! ### the model's functions are the generic ones at the two engines -/
+
+theorem xorOwned_bridge (K : Kernel) (xs : List (Except ε Bitmap)) : tryMultiXorOwned xs = xorWith (ownedEngine K ε plaw_xor K.xorOwned sopLaw_xor) xs := by
+  unfold tryMultiXorOwned xorWith
+  simp only [ownedEngine, id_eq]
+  rcases xs with _ | ⟨e | v, r⟩
+  · rfl
+  · rfl
+  · dsimp only
+    generalize mergeLoopOwned Store.xorAssignOwned v r = r2
+    cases r2 <;> rfl
+theorem xorRef_bridge (K : Kernel) (xs : List (Except ε Bitmap)) : tryMultiXorRef xs = xorWith (refEngine K ε plaw_xor K.xorRef sopLaw_xor) xs := by
+  unfold tryMultiXorRef xorWith
+  simp only [refEngine, List.map_nil]
+  rcases xs with _ | ⟨e | v, r⟩
+  · rfl
+  · rfl
+  · dsimp only
+    generalize mergeLoopRef Store.xorAssignRef (v.map Cow.borrowed) r = r2
+    cases r2 <;> rfl
+theorem orOwned_bridge (K : Kernel) sort h (xs : List (Except ε Bitmap)) : tryMultiOrOwnedWith sort h xs = orWith (ownedEngine K ε plaw_or K.orOwned sopLaw_or) sort h xs := by
+  unfold tryMultiOrOwnedWith orWith
+  simp only [ownedEngine, id_eq]
+  generalize orStartWith sort h xs = r0
+  rcases r0 with e | _ | ⟨c, rest⟩
+  · rfl
+  · rfl
+  · dsimp only
+    generalize mergeLoopOwned Store.orAssignOwned c rest = r2
+    cases r2 <;> rfl
+theorem orRef_bridge (K : Kernel) sort h (xs : List (Except ε Bitmap)) : tryMultiOrRefWith sort h xs = orWith (refEngine K ε plaw_or K.orRef sopLaw_or) sort h xs := by
+  unfold tryMultiOrRefWith orWith
+  simp only [refEngine]
+  generalize orStartWith sort h xs = r0
+  rcases r0 with e | _ | ⟨c, rest⟩
+  · rfl
+  · rfl
+  · dsimp only
+    generalize mergeLoopRef Store.orAssignRef (c.map Cow.borrowed) rest = r2
+    cases r2 <;> rfl
+
+end Roaring.Multi
